@@ -142,6 +142,35 @@ def case_method(ctx):
     ctx.prove("request after the matrix was replaced uses the new matrix", pre, all_eq(r2, d2), replay=rp)
     ctx.prove("repeated request with explicit conditioning uses the new matrix", pre, all_eq(r2b, d2), replay=rp)
     ctx.prove("the stored attribute is the last result", pre, all_eq(stored, d2), replay=rp)
+    # sensors with different numbers of sub-apertures: the partition is taken at the ON-AXIS sensor's count
+    for masks, n_on in (([numpy.ones((1, 1)), numpy.ones((1, 2))], 1), ([numpy.ones((1, 2)), numpy.ones((1, 1))], 2)):
+        tot = 2 * int(sum(m.sum() for m in masks))
+        C3 = symm("U%d" % n_on, tot)
+        npx.INV_LOG.clear()
+        with npx.symbolic(sc):
+            cm = sc.CovarianceMatrix(2, [m.copy() for m in masks], 1.0, [0.5, 0.5], [0, 0], [[0, 0], [1, 1]], [5e-7, 5e-7], 1, [0.0], [0.2], [25.0])
+            cm.covariance_matrix = C3
+            r3 = numpy.asarray(cm.make_tomographic_reconstructor(), dtype=object)
+            d3 = numpy.asarray(sc.create_tomographic_covariance_reconstructor(C3, n_on, 0), dtype=object)
+        ctx.paths += 1
+        ctx.prove("unequal sensors (%d on-axis sub-apertures of %d): the method cuts the matrix at the on-axis sensor's count" % (n_on, tot // 2),
+                  det_nonzero(), all_eq(r3, d3) if r3.shape == d3.shape else z3.BoolVal(False),
+                  replay=lambda m, masks=masks, n_on=n_on: harness.pristine_call(_replay_method_unequal, [mm.tolist() for mm in masks], n_on))
+
+
+def _replay_method_unequal(masks, n_on):
+    sc = _sc()
+    masks = [numpy.array(m, dtype=float) for m in masks]
+    tot = 2 * int(sum(m.sum() for m in masks))
+    rng = rng_for("c02u")
+    A = rand_real(rng, (tot, tot))
+    A = A.dot(A.T) + numpy.eye(tot) * 3
+    cm = sc.CovarianceMatrix(2, masks, 1.0, [0.5, 0.5], [0, 0], [[0, 0], [1, 1]], [5e-7, 5e-7], 1, [0.0], [0.2], [25.0])
+    cm.covariance_matrix = A
+    r = numpy.asarray(cm.make_tomographic_reconstructor())
+    d = numpy.asarray(sc.create_tomographic_covariance_reconstructor(A, n_on, 0))
+    bad = r.shape != d.shape or not numpy.allclose(r, d)
+    return bool(bad), dict(what="make_tomographic_reconstructor does not partition at the on-axis sensor's sub-aperture count", got_shape=list(r.shape), want_shape=list(d.shape))
 
 
 def case_method_rebuild(ctx, threads):
